@@ -3,7 +3,7 @@
 //!
 //! case (14 tokens):
 //!   <input> <sym> <modes> <brief> <pretty> <feat> <rfa> <out> <cy> <log> <verbose> <stdout> <evil> <noflags>
-//!   input   F:<name in /repo/testdata> | M:<name>:<seed>:<n bytes mutated> | T:<name>:<len> (truncated)
+//!   input   F:<name in /repo/testdata> | M:<name>:<seed>:<n bytes mutated> | MS:<k>:<seed>:<n> (mutated synth) | T:<name>:<len> (truncated)
 //!           | S:<k> (minidump-synth variant) | X:missing | X:empty | X:dir | X:text
 //!   sym     n none | p positional testdata/symbols | s --symbols-path testdata/symbols
 //!           | a positional "symargs" (test_app.sym with argument lists) | b --symbols-path symargs + positional symbols
@@ -231,8 +231,8 @@ fn input_bytes(spec: &str) -> Option<Vec<u8>> {
     let read = |n: &str| std::fs::read(Path::new(TESTDATA).join(n)).expect("testdata file");
     match parts[0] {
         "F" => Some(read(parts[1])),
-        "M" => {
-            let mut b = read(parts[1]);
+        "M" | "MS" => {
+            let mut b = if parts[0] == "M" { read(parts[1]) } else { synth_dump(parts[1].parse().unwrap()) };
             let mut r = Rng(parts[2].parse::<u64>().unwrap().wrapping_mul(0x9E3779B97F4A7C15) | 1);
             let n: usize = parts[3].parse().unwrap();
             for _ in 0..n {
